@@ -16,9 +16,12 @@ import common
 
 PROP = "C20"
 HEADER = "From Coq Require Import ZArith List.\nImport ListNotations.\nFrom IBL.C20 Require Import Run."
-WHITELIST = []
+WHITELIST = sorted(common.STDLIB_AXIOMS)      # used by C20_svd_rank_float_exact (Flocq / Reals) only — enforced in _run
+AXIOM_THEOREMS = {"C20_svd_rank_float_exact"}
 TRUSTED = [
-    "Coq 8.16.1 kernel + vm_compute (no native_compute); every C20 theorem is closed under the global context",
+    "Coq 8.16.1 kernel + vm_compute (no native_compute); every C20 theorem is closed under the global context except "
+    "C20_svd_rank_float_exact (Flocq 4.1 + Reals: ClassicalDedekindReals.sig_forall_dec, sig_not_dec, "
+    "functional_extensionality_dep, Classical_Prop.classic)",
     "hand-written models coq/C20/Model.v of _spikes_venn, voltage.stack, smooth.rolling_window/lp/"
     "non_uniform_savgol and cadzow.trajectory/denoise, tied to the source by this run's correspondence",
     "np.searchsorted on a sorted train selects the spikes with off <= sample < off+chunk (trains are sorted: domain)",
@@ -27,9 +30,10 @@ TRUSTED = [
     "length and has DC gain 1 (fcn_cosine(b)(0)=0); window weights sum to a non-zero number; the field has "
     "characteristic 0",
     "float64 n*pad modelled exactly by integer round-to-nearest-even to 53 bits (IEEE-754 host fact)",
-    "svd_rank is the exact integer floor(rank*size/nc); that the source's float64 expression int(rank*size/nc) "
-    "equals it is a checked hypothesis: swept exhaustively for every nc <= 200 (quick) / 400 (thorough) on each run, "
-    "and the ranks actually passed to _svd_denoise are compared for every collection size 1..100",
+    "svd_rank is the exact integer floor(rank*size/nc); that the binary64 expression int(rank*size/nc) equals it is "
+    "PROVED (C20_svd_rank_float_exact, all operands < 2^26) under the IEEE-754 reading: Python int/int = correctly "
+    "rounded quotient (round-to-nearest-even), int() = floor of a non-negative float; the NumPy sweep nc <= 200/400 and "
+    "the ranks actually passed to _svd_denoise for every collection size 1..100 tie that reading to the source",
     "harness/pC20.py generators, canonicalisers, tolerances and oracle; during the cadzow phase numba.jit is the "
     "identity decorator (iblutil's ismember2d otherwise re-compiles its helper on every call); one layout per run "
     "is evaluated with and without it and compared",
@@ -39,6 +43,28 @@ TRUSTED = [
 VENN_DTYPES = [("int64", "int64"), ("int32", "int16"), ("uint32", "uint16"), ("float64", "float32"),
                ("uint64", "int64")]
 WINDOWS = ["flat", "hanning", "hamming", "bartlett", "blackman"]
+
+
+class BadOutput(Exception):
+    """the implementation returned something that is not the documented kind of value"""
+
+
+def as_array(x, shape, what, kinds="fiu"):
+    """x must be a NumPy array of exactly this shape and a numeric kind; anything else is a BadOutput"""
+    if not isinstance(x, np.ndarray):
+        raise BadOutput("%s returned %s instead of a NumPy array" % (what, type(x).__name__))
+    if tuple(x.shape) != tuple(shape):
+        raise BadOutput("%s returned shape %s, expected %s" % (what, tuple(x.shape), tuple(shape)))
+    if x.dtype.kind not in kinds:
+        raise BadOutput("%s returned dtype %s" % (what, x.dtype))
+    return x
+
+
+def unchanged(before, after, what):
+    """inputs must not be modified in place"""
+    for b, a in zip(before, after):
+        if not (isinstance(a, np.ndarray) and a.shape == b.shape and np.array_equal(a, b, equal_nan=True)):
+            raise BadOutput("%s modified its input in place" % what)
 
 
 @contextlib.contextmanager
@@ -61,15 +87,25 @@ def venn_call(case, chunk=None):
     fn = spiketrains.spikes_venn2 if n == 2 else spiketrains.spikes_venn3
     kw = dict(samples_binsize=case["xbin"] or None, channels_binsize=case["ybin"], fs=case["fs"],
               num_channels=case["nchan"], chunk_size=(case["chunk"] if chunk is None else chunk) or None)
+    before = [a.copy() for a in st + ct]
     try:
         with quiet():
             res = fn(st, ct, **kw)
     except Exception as e:  # noqa
         return ("exc", type(e).__name__)
     keys = [format(i, "0%db" % n) for i in range(1, 2 ** n)]
-    if sorted(res.keys()) != sorted(keys):
-        return ("exc", "keys")
-    return [int(res[k]) for k in keys]
+    try:
+        unchanged(before, st + ct, "spikes_venn")
+        if not isinstance(res, dict) or sorted(res.keys()) != sorted(keys):
+            return ("exc", "result is not the documented dictionary of %d region counts" % len(keys))
+        out = [int(res[k]) for k in keys]
+        if any(float(res[k]) != v for k, v in zip(keys, out)):
+            return ("exc", "non-integer region count")
+        return out
+    except BadOutput as e:
+        return ("exc", str(e))
+    except Exception as e:  # noqa
+        return ("exc", "uninterpretable result: %r" % (e,))
 
 
 def venn_enc_inp(case):
@@ -164,9 +200,16 @@ def wsum(d, axis=0):
 
 def stack_call(word, data):
     from ibldsp import voltage
+    d = np.array(data, dtype=np.int64).reshape(len(word), -1)
+    w = np.array(word, dtype=np.int64)
+    before = [d.copy(), w.copy()]
     try:
-        st, fold = voltage.stack(np.array(data, dtype=np.int64).reshape(len(word), -1), np.array(word, dtype=np.int64),
-                                 fcn_agg=wsum)
+        st, fold = voltage.stack(d, w, fcn_agg=wsum)
+        unchanged(before, [d, w], "stack")
+        st = as_array(st, (len(set(word)), d.shape[1]), "stack")
+        fold = as_array(fold, (len(set(word)),), "stack (fold)", kinds="iu")
+    except BadOutput as e:
+        return ("exc", str(e))
     except Exception as e:  # noqa
         return ("exc", type(e).__name__)
     return [int(st.shape[0])] + [int(v) for v in st.flatten()] + [int(f) for f in fold]
@@ -179,8 +222,10 @@ def stack_oracle(word, data, ctx, desc):
     d = np.array(data, dtype=float).reshape(len(word), -1)
     try:
         st, fold = voltage.stack(d, np.array(word))
+        st = as_array(st, (len(set(word)), d.shape[1]), "stack", kinds="f")
+        fold = as_array(fold, (len(set(word)),), "stack (fold)", kinds="iu")
     except Exception as e:  # noqa
-        ctx.fail("stack raised %r" % (e,), desc, {"kind": "stack_exception"})
+        ctx.fail("stack: %s" % (e if isinstance(e, BadOutput) else repr(e)), desc, {"kind": "stack_exception"})
         return
     labels = sorted(set(word))
     ok = st.shape == (len(labels), d.shape[1]) and list(map(int, fold)) == [word.count(g) for g in labels]
@@ -198,6 +243,10 @@ def stack_int_call(word, data, dtype):
     from ibldsp import voltage
     try:
         st, fold = voltage.stack(np.array(data, dtype=dtype).reshape(len(word), -1), np.array(word))
+        st = as_array(st, (len(set(word)), len(data) // len(word)), "stack")
+        fold = as_array(fold, (len(set(word)),), "stack (fold)", kinds="iu")
+    except BadOutput as e:
+        return ("exc", str(e)), None
     except Exception as e:  # noqa
         return ("exc", type(e).__name__), None
     if st.dtype != np.dtype(dtype):
@@ -229,10 +278,13 @@ def rolling_mult(n, w):
     for p in range(n):
         e = np.zeros(n)
         e[p] = 1.0
+        e0 = e.copy()
         try:
-            out = np.asarray(smooth.rolling_window(e, window_len=w, window="flat"))
+            out = smooth.rolling_window(e, window_len=w, window="flat")
         except ValueError:
             return [0], True
+        out = as_array(out, np.shape(out) if isinstance(out, np.ndarray) and out.ndim == 1 else (n,), "rolling_window")
+        unchanged([e0], [e], "rolling_window")
         rows.append(out * (w if w >= 3 else 1))
     m = np.array(rows).T                      # m[k][p]
     mi = np.rint(m)
@@ -252,9 +304,13 @@ def lp_observe(x, pad):
     orig = smooth.ft
     smooth.ft = types.SimpleNamespace(lp=fake_lp)
     try:
-        out = smooth.lp(np.array(x, dtype=np.int64), [0.1, 0.15], pad=pad)
+        xa = np.array(x, dtype=np.int64)
+        out = smooth.lp(xa, [0.1, 0.15], pad=pad)
     finally:
         smooth.ft = orig
+    if not (isinstance(out, np.ndarray) and out.ndim == 1):
+        raise BadOutput("smooth.lp returned %s" % (type(out).__name__ if not isinstance(out, np.ndarray) else "shape %s" % (out.shape,)))
+    unchanged([np.array(x, dtype=np.int64)], [xa], "smooth.lp")
     padded = rec["padded"]
     if rec["args"] != (1.0, [0.05, 0.075]):
         raise ValueError("ft.lp called with si, b = %r (expected 1, fac / 2)" % (rec["args"],))
@@ -281,16 +337,21 @@ def float_me(pad):
 # ----------------------------------------------------------------------------
 def savgol_call(window, polynom, x, y):
     from ibldsp import smooth
+    xa, ya = np.array(x, dtype=float), np.array(y, dtype=float)
     try:
         with np.errstate(all="ignore"):
-            out = smooth.non_uniform_savgol(np.array(x, dtype=float), np.array(y, dtype=float), window, polynom)
+            out = smooth.non_uniform_savgol(xa, ya, window, polynom)
     except ValueError:
         return ("exc", 1)
     except UnboundLocalError:
         return ("exc", 2)
     except Exception as e:  # noqa
         return ("exc", type(e).__name__)
-    return out
+    try:
+        unchanged([np.array(x, dtype=float), np.array(y, dtype=float)], [xa, ya], "non_uniform_savgol")
+        return as_array(out, (len(x),), "non_uniform_savgol", kinds="f")
+    except BadOutput as e:
+        return ("exc", str(e))
 
 
 def gen_abscissae(rng, n, maxgap):
@@ -356,6 +417,31 @@ def layouts(ctx):
     return out
 
 
+def denoise_checked(A, x, y, **kw):
+    """cadzow.denoise on a private copy; the result must be a complex array of the input's shape and the
+    arguments must not be modified (the comparison is always against the caller's untouched original)"""
+    from ibldsp import cadzow
+    a_in, x_in, y_in = A.copy(), x.copy(), y.copy()
+    out = cadzow.denoise(a_in, x_in, y_in, **kw)
+    out = as_array(out, A.shape, "cadzow.denoise", kinds="c")
+    out = out.copy()
+    unchanged([A, x, y], [a_in, x_in, y_in], "cadzow.denoise")
+    return out
+
+
+def svd_checked(d, **kw):
+    from ibldsp import voltage
+    d_in = d.copy()
+    coll = kw.get("collection")
+    coll0 = None if coll is None else np.array(coll).copy()
+    out = voltage.svd_denoise_npx(d_in, **kw)
+    out = as_array(out, d.shape, "svd_denoise_npx", kinds="f")
+    out = out.copy()
+    unchanged([d] + ([] if coll is None else [coll0]), [d_in] + ([] if coll is None else [np.asarray(coll)]),
+              "svd_denoise_npx")
+    return out
+
+
 def cadzow_oracle(ctx, kind, ncol, nrow, sites, meas, full=None, light=False):
     """identity at full rank; plane wave at rank one; noise reduction (measured)"""
     from ibldsp import cadzow
@@ -371,12 +457,13 @@ def cadzow_oracle(ctx, kind, ncol, nrow, sites, meas, full=None, light=False):
             T, _, _, _ = cadzow.trajectory(x, y)
             full = min(T.shape)
         with np.errstate(all="ignore"):
-            out = cadzow.denoise(W, x, y, r=full)
-            out_imax = out.copy() if light else cadzow.denoise(W, x, y, r=full, imax=3)
+            out = denoise_checked(W, x, y, r=full)
+            out_imax = out.copy() if light else denoise_checked(W, x, y, r=full, imax=3)
             if light:
                 out_imax[:, 3:] = 0
     except Exception as e:  # noqa
-        ctx.fail("cadzow.denoise raised %r" % (e,), desc, {"kind": "cadzow_exception", "layout": kind})
+        ctx.fail("cadzow.denoise: %s" % (e if isinstance(e, BadOutput) else repr(e)), desc,
+                 {"kind": "cadzow_exception", "layout": kind})
         return
     err = float(np.max(np.abs(out - W))) if np.all(np.isfinite(out)) else float("inf")
     meas["cadzow_fullrank_max_err"] = max(meas.get("cadzow_fullrank_max_err", 0.0), err)
@@ -386,9 +473,9 @@ def cadzow_oracle(ctx, kind, ncol, nrow, sites, meas, full=None, light=False):
     for niter in (2, 3):
         try:
             with np.errstate(all="ignore"):
-                on = cadzow.denoise(W, x, y, r=full, niter=niter)
+                on = denoise_checked(W, x, y, r=full, niter=niter)
         except Exception as e:  # noqa
-            ctx.fail("cadzow.denoise(niter=%d) raised %r" % (niter, e), dict(desc, niter=niter),
+            ctx.fail("cadzow.denoise(niter=%d): %s" % (niter, e if isinstance(e, BadOutput) else repr(e)), dict(desc, niter=niter),
                      {"kind": "cadzow_exception", "layout": kind})
             continue
         en = float(np.max(np.abs(on - W))) if np.all(np.isfinite(on)) else float("inf")
@@ -403,8 +490,13 @@ def cadzow_oracle(ctx, kind, ncol, nrow, sites, meas, full=None, light=False):
         # one plane wave (exactly a rank-one trajectory matrix on a complete regular grid)
         kx, ky = rng.uniform(-0.05, 0.05), rng.uniform(-0.05, 0.05)
         pw = (np.exp(1j * (kx * x + ky * y))[:, None] * (rng.standard_normal(nf) + 1j * rng.standard_normal(nf))[None, :])
-        with np.errstate(all="ignore"):
-            o1 = cadzow.denoise(pw, x, y, r=1)
+        try:
+            with np.errstate(all="ignore"):
+                o1 = denoise_checked(pw, x, y, r=1)
+        except Exception as e:  # noqa
+            ctx.fail("cadzow.denoise(rank 1): %s" % (e if isinstance(e, BadOutput) else repr(e)), desc,
+                     {"kind": "cadzow_exception", "layout": kind})
+            return
         e1 = float(np.max(np.abs(o1 - pw))) if np.all(np.isfinite(o1)) else float("inf")
         meas["cadzow_planewave_rank1_max_err"] = max(meas.get("cadzow_planewave_rank1_max_err", 0.0), e1)
         if not e1 < 1e-8:
@@ -412,8 +504,13 @@ def cadzow_oracle(ctx, kind, ncol, nrow, sites, meas, full=None, light=False):
                      {"kind": "cadzow_planewave", "layout": kind})
         if nc >= 16 and not light:
             noise = 0.3 * (rng.standard_normal(pw.shape) + 1j * rng.standard_normal(pw.shape))
-            with np.errstate(all="ignore"):
-                o2 = cadzow.denoise(pw + noise, x, y, r=1)
+            try:
+                with np.errstate(all="ignore"):
+                    o2 = denoise_checked(pw + noise, x, y, r=1)
+            except Exception as e:  # noqa
+                ctx.fail("cadzow.denoise(rank 1, noisy): %s" % (e if isinstance(e, BadOutput) else repr(e)), desc,
+                         {"kind": "cadzow_exception", "layout": kind})
+                return
             ratio = float(np.linalg.norm(o2 - pw) / np.linalg.norm(noise))
             meas.setdefault("cadzow_noise_ratio_rank1", []).append(round(ratio, 4))
 
@@ -464,9 +561,9 @@ def svd_oracle(ctx, meas):
                 desc = {"fn": "svd_denoise_npx", "collections": ncoll, "collection_size": size, "data_rank_per_collection": m,
                         "rank": ncoll * m}
                 try:
-                    out = voltage.svd_denoise_npx(d, rank=ncoll * m, collection=coll if ncoll > 1 else None)
+                    out = svd_checked(d, rank=ncoll * m, collection=coll if ncoll > 1 else None)
                 except Exception as e:  # noqa
-                    ctx.fail("svd_denoise_npx raised %r" % (e,), desc, {"kind": "svd_exception"})
+                    ctx.fail("svd_denoise_npx: %s" % (e if isinstance(e, BadOutput) else repr(e)), desc, {"kind": "svd_exception"})
                     continue
                 err = float(np.max(np.abs(out - d)) / np.max(np.abs(d)))
                 meas["svd_percollection_lowrank_max_rel_err"] = max(meas.get("svd_percollection_lowrank_max_rel_err", 0.0), err)
@@ -481,14 +578,14 @@ def svd_oracle(ctx, meas):
             coll = rng.permutation(coll)
         desc = {"fn": "svd_denoise_npx", "nc": nc, "ns": ns, "collection": None if coll is None else coll.tolist()}
         try:
-            out = voltage.svd_denoise_npx(d, rank=nc, collection=coll)
+            out = svd_checked(d, rank=nc, collection=coll)
             k = max(1, nc // 4)
             low = rng.standard_normal((nc, k)) @ rng.standard_normal((k, ns))
-            out_low = voltage.svd_denoise_npx(low, rank=k)
+            out_low = svd_checked(low, rank=k)
             noisy = low + 0.2 * rng.standard_normal(low.shape)
-            out_noisy = voltage.svd_denoise_npx(noisy, rank=k)
+            out_noisy = svd_checked(noisy, rank=k)
         except Exception as e:  # noqa
-            ctx.fail("svd_denoise_npx raised %r" % (e,), desc, {"kind": "svd_exception"})
+            ctx.fail("svd_denoise_npx: %s" % (e if isinstance(e, BadOutput) else repr(e)), desc, {"kind": "svd_exception"})
             continue
         e_full = float(np.max(np.abs(out - d)))
         e_low = float(np.max(np.abs(out_low - low)))
@@ -527,6 +624,9 @@ def run(ctx):
 
 def _run(ctx):
     common.proof_obligations(ctx, whitelist=WHITELIST)
+    for name, ax in ctx.theorems.items():
+        if name not in AXIOM_THEOREMS and ax != "Closed under the global context":
+            ctx.broken_proofs.append({"theorem": name, "why": "expected to be closed under the global context, uses %s" % ax})
     from ibldsp import smooth
     rng = ctx.rng
     T = ctx.thorough()
@@ -560,8 +660,9 @@ def _run(ctx):
             empty = any(len(t) == 0 for t in case["trains"])
             ny = -(-(2 * case["nchan"] + case["ybin"]) // (2 * case["ybin"]))
             oob = any(c // case["ybin"] >= ny for t in case["trains"] for _, c in t)
-            if not (empty or oob):
-                ctx.fail("spikes_venn raised %s on valid spike trains" % res[1], desc, {"kind": "venn_exception"})
+            if not (empty or oob) or res[1] != "ValueError":
+                ctx.fail("spikes_venn: %s on %s spike trains" % (res[1], "valid" if not (empty or oob) else "out-of-domain"),
+                         desc, {"kind": "venn_exception"})
                 continue
             add(venn_enc_inp(case), [0], desc)
             continue
@@ -632,10 +733,16 @@ def _run(ctx):
                              {"kind": "stack_int_dtype"})
             from ibldsp import voltage
             d32 = np.array(case["data"], dtype=np.float32).reshape(len(case["word"]), -1)
-            st32, _ = voltage.stack(d32, np.array(case["word"], dtype=np.int32))
             ex32 = np.array([d32[[i for i, w in enumerate(case["word"]) if w == g], :].astype(float).mean(axis=0)
                              for g in sorted(set(case["word"]))])
-            if not np.allclose(st32, ex32, rtol=1e-5, atol=1e-4):
+            try:
+                st32, _ = voltage.stack(d32, np.array(case["word"], dtype=np.int32))
+                st32 = as_array(st32, ex32.shape, "stack", kinds="f")
+            except Exception as e:  # noqa
+                ctx.fail("stack on float32 traces: %s" % (e if isinstance(e, BadOutput) else repr(e)),
+                         dict(desc, dtype="float32"), {"kind": "stack_exception"})
+                st32 = None
+            if st32 is not None and not np.allclose(st32, ex32, rtol=1e-5, atol=1e-4):
                 ctx.fail("stack on float32 traces / int32 labels is not the per-label mean", dict(desc, dtype="float32"),
                          {"kind": "stack_spec"})
         if len(set(case["word"])) > 1 and len(set(case["word"])) < len(case["word"]):
@@ -657,7 +764,11 @@ def _run(ctx):
     worst = 0.0
     for (n, w), tm in zip(roll_cases, taps_model):
         desc = {"fn": "rolling_window", "n": n, "window_len": w}
-        obs, exact = rolling_mult(n, w)
+        try:
+            obs, exact = rolling_mult(n, w)
+        except Exception as e:  # noqa
+            ctx.fail("rolling_window: %s" % (e if isinstance(e, BadOutput) else repr(e)), desc, {"kind": "rolling_exception"})
+            continue
         count("rolling_cases")
         if not exact:
             ctx.disagree("rolling_window(flat) one-hot response is not a multiple of 1/window_len", desc)
@@ -674,13 +785,18 @@ def _run(ctx):
         xr = np.array([rng.randrange(-20, 21) for _ in range(n)], dtype=float)
         for win in WINDOWS:
             try:
+                xr0 = xr.copy()
                 oc = smooth.rolling_window(np.full(n, 7.0), window_len=w, window=win)
                 orr = smooth.rolling_window(xr, window_len=w, window=win)
+                unchanged([xr0], [xr], "rolling_window")
+                if not (isinstance(oc, np.ndarray) and isinstance(orr, np.ndarray) and oc.dtype.kind == "f"):
+                    raise BadOutput("rolling_window returned %s" % type(oc).__name__)
             except Exception as e:  # noqa
-                ctx.fail("rolling_window raised %r" % (e,), dict(desc, window=win), {"kind": "rolling_exception"})
+                ctx.fail("rolling_window: %s" % (e if isinstance(e, BadOutput) else repr(e)), dict(desc, window=win),
+                         {"kind": "rolling_exception"})
                 continue
-            if len(oc) != n:
-                ctx.fail("rolling_window changes the length (%d -> %d)" % (n, len(oc)), dict(desc, window=win),
+            if oc.shape != (n,) or orr.shape != (n,):
+                ctx.fail("rolling_window changes the length / shape (%s -> %s)" % ((n,), oc.shape), dict(desc, window=win),
                          {"kind": "rolling_length"})
                 continue
             if not np.allclose(oc, 7.0, rtol=0, atol=1e-9):
@@ -716,12 +832,14 @@ def _run(ctx):
                 oc = smooth.lp(np.full(n, 3.0), [0.1, 0.15], pad=pad)
                 oc2 = smooth.lp(np.full(n, -2.5), [0.0, 0.4], pad=pad)
             except Exception as ex_:  # noqa
-                ctx.fail("smooth.lp raised %r" % (ex_,), desc, {"kind": "lp_exception"})
+                ctx.fail("smooth.lp: %s" % (ex_ if isinstance(ex_, BadOutput) else repr(ex_)), desc, {"kind": "lp_exception"})
                 continue
             tag = {"kind": "lp_length", "pad_zero": pad == 0}
             add([4, m, e] + x, obs, desc)
-            if len(oc) != n:
-                ctx.fail("smooth.lp changes the length (%d -> %d)" % (n, len(oc)), desc, tag)
+            if not (isinstance(oc, np.ndarray) and isinstance(oc2, np.ndarray) and oc.dtype.kind == "f"):
+                ctx.fail("smooth.lp returned %s instead of a float array" % type(oc).__name__, desc, {"kind": "lp_exception"})
+            elif oc.shape != (n,) or oc2.shape != (n,):
+                ctx.fail("smooth.lp changes the length / shape (%s -> %s)" % ((n,), oc.shape), desc, tag)
             else:
                 dc = max(float(np.max(np.abs(oc - 3.0))), float(np.max(np.abs(oc2 + 2.5))))
                 worst_dc = max(worst_dc, dc)
@@ -760,7 +878,7 @@ def _run(ctx):
         if isinstance(out, tuple):
             count("savgol_error_%s" % out[1])
             valid = n > window and window % 2 == 1 and polynom < window
-            if valid:
+            if valid or out[1] not in (1, 2):
                 ctx.fail("non_uniform_savgol raised on a valid input (%s)" % (out[1],), desc,
                          {"kind": "savgol_exception"})
             continue
@@ -828,10 +946,16 @@ def _run(ctx):
             continue
         count("savgol_nan_cases")
         try:
+            sig0 = sig.copy()
             with np.errstate(all="ignore"):
                 out = smooth.smooth_interpolate_savgol(sig, window=window, order=order)
+            unchanged([sig0], [sig], "smooth_interpolate_savgol")
+            if not (isinstance(out, np.ndarray) and out.ndim == 1 and out.dtype.kind == "f"):
+                raise BadOutput("smooth_interpolate_savgol returned %s" % (type(out).__name__ if not isinstance(out, np.ndarray)
+                                                                            else "shape %s dtype %s" % (out.shape, out.dtype)))
         except Exception as e:  # noqa
-            ctx.fail("smooth_interpolate_savgol raised %r" % (e,), desc, {"kind": "savgol_nan_exception"})
+            ctx.fail("smooth_interpolate_savgol: %s" % (e if isinstance(e, BadOutput) else repr(e)), desc,
+                     {"kind": "savgol_nan_exception"})
             continue
         if len(out) != n or not np.all(np.isfinite(out)):
             ctx.fail("smooth_interpolate_savgol leaves non-finite values / changes the length", desc,
@@ -1007,7 +1131,10 @@ def replay(ctx, data):
         bad += [f["what"] for f in c2.oracle_failures]
     elif fn == "rolling_window":
         n, w = inp["n"], inp["window_len"]
-        obs, _ = rolling_mult(n, w)
+        try:
+            obs, _ = rolling_mult(n, w)
+        except Exception as e:  # noqa
+            obs = ["exception", repr(e)]
         model = common.Extracted(PROP).run_many([[3, n, w]])[0]
         print("implementation (multiplicities):", obs[:60], "\nmodel:", model[:60])
         if obs != model:
